@@ -166,6 +166,6 @@ def observe_path(model, X, y, path_kwargs, call_limit=4000):
         obs_steps.append({"alpha": s["alpha"], "n_sel": last["n_sel"], "score": sc, "penalty": last["penalty"],
                           "weights": last["weights"], "last_weights": last["weights"], "epochs": len(s["calls"]) - 1,
                           "nan": bool(isinstance(sc, float) and math.isnan(sc)) or bool(np.isnan(sc))})
-    obs = {"d": X.shape[1], "init": {"score": init["score"], "n_sel": init["n_sel"], "weights": init["weights"]},
+    obs = {"d": np.asarray(X).shape[1], "init": {"score": init["score"], "n_sel": init["n_sel"], "weights": init["weights"]},
            "steps": obs_steps, "nonterminating": False, "calls": len(calls)}
     return ret, obs, texts
